@@ -66,6 +66,10 @@ func (endpoint *PairVerify) ServeHTTP(response http.ResponseWriter, request *htt
 		b := out.GetByte(pair.TagSequence)
 		switch pair.VerifyStepType(b) {
 		case pair.VerifyStepFinishResponse:
+			if out.GetByte(pair.TagErrCode) != 0 {
+				// verification failed (e.g. invalid signature): the connection stays unverified
+				break
+			}
 			if secSession, err = crypto.NewSecureSessionFromSharedKey(ctlr.SharedKey()); err == nil {
 				log.Debug.Println("Setup secure session")
 				session.SetCryptographer(secSession)
